@@ -23,7 +23,7 @@ RULE = ("one evaluation = (operator, arity, operand-form mode, argument tuple): 
         "that makes the operation raise. Non-trivial = arity >= 3, or a raising tuple, or a tuple on which "
         "left and right fold differ (both computed); distinct by (operator, mode, form text, tuple).")
 FLOOR = {"quick": 2000, "thorough": 2000}
-BUDGET = {"quick": 28, "thorough": 420}
+BUDGET = {"quick": 24, "thorough": 420}
 CASE_TIMEOUT = 20
 NEEDS_EVENTS = True
 ANCHORS = ["hy.core.result_macros:compile_maths_expression",
@@ -118,7 +118,8 @@ def twin_expr(op, xs):
         return f"(not {xs[0]})"
     if op in COMPARE:
         if n == 1:
-            return f"({xs[0]}, True)[1]"
+            # documented literally as ``(< x)`` -> ``True``: whether x is evaluated is not gated
+            return "True"
         return "(" + f" {PYOP[op]} ".join(xs) + ")"
     if op in LOGIC:
         if n == 0:
@@ -306,41 +307,53 @@ class TooBig(Exception):
     pass
 
 
-def _guard_pow(a, b):
-    if isinstance(a, (int, bool)) and isinstance(b, (int, bool)):
-        if abs(a) >= 2 and b > 64:
+def _isint(v):
+    return isinstance(v, int)
+
+
+def _guarded(op, a, b):
+    """a op b, refusing operand sizes that would make CPython allocate/loop for long."""
+    if op == "**":
+        if _isint(a) and _isint(b) and abs(a) >= 2 and b > 64:
             raise TooBig
-        if abs(a) > 10 ** 40:
-            if b > 8:
+    elif op == "<<":
+        if _isint(a) and _isint(b) and b > 4096:
+            raise TooBig
+    elif op == "*":
+        for x, y in ((a, b), (b, a)):
+            if isinstance(x, (str, list, tuple)) and _isint(y) and len(x) * y > 10 ** 5:
                 raise TooBig
-    if isinstance(a, Sym) or isinstance(b, Sym):
-        return 2
-    return a ** b
+    import operator as O
+    r = {"**": O.pow, "<<": O.lshift, "*": O.mul, ">>": O.rshift}[op](a, b)
+    if _isint(r) and r.bit_length() > 10 ** 5:
+        raise TooBig
+    return r
+
+
+GUARDED = {"**", "<<", ">>", "*"}
 
 
 def tuple_ok(op, xs):
     """Keep values small whichever way an implementation folds (so that neither the
-    tree under test nor a mutant can hang the worker in a C-level bignum loop)."""
-    if op in ("**", "**="):
+    tree under test nor a fold-direction mutant can hang the worker in a C-level
+    bignum loop, which the per-case alarm cannot interrupt)."""
+    if op not in GUARDED or len(xs) < 2:
+        return True
+    for order in ("r", "l"):
         try:
             vals = build(xs)
-        except Exception:
+            if order == "r":
+                acc = vals[-1]
+                for v in reversed(vals[:-1]):
+                    acc = _guarded(op, v, acc)
+            else:
+                acc = vals[0]
+                for v in vals[1:]:
+                    acc = _guarded(op, acc, v)
+        except TooBig:
             return False
-        for order in ("r", "l"):
-            try:
-                if order == "r":
-                    acc = vals[-1]
-                    for v in reversed(vals[:-1]):
-                        acc = _guard_pow(v, acc)
-                else:
-                    acc = vals[0]
-                    for v in vals[1:]:
-                        acc = _guard_pow(acc, v)
-            except TooBig:
-                return False
-            except Exception:
-                pass
-        return True
+        except Exception:
+            pass
     return True
 
 
@@ -461,12 +474,15 @@ def make_case(rng, op, n, mode, K, rnd=0):
             t = gen_tuple(rng, op, nvals + 1)
             if any(s.startswith("@") for s in t):
                 continue
-            if tuple_ok(op, t) and tuple_ok(AGG_DOC.get(op, op), t[1:]) and tuple_ok("*", t[1:]):
+            if tuple_ok(op, t) and tuple_ok(AGG_DOC.get(op, op), t[1:]) and tuple_ok("*", t[1:]) \
+                    and tuple_ok("*", t):
                 tuples.append(t)
         if not tuples:
             return None
         hy, _, _ = render_aug(op, nvals, target)
         return {"op": op, "n": nvals, "mode": "aug", "target": target, "text": hy, "tuples": tuples}
+    if op in ("is", "is-not") and mode == "lit":
+        return None                     # identity of equal literals is CPython-defined (constant merging)
     if op == "cut" and mode in ("s1", "s2", "s3"):
         return None                     # `cut` has no #* fallback (not a shadow=True macro)
     if mode == "s2" and n < 1 or mode == "s3" and n < 1:
@@ -641,7 +657,9 @@ def run_case(case):
             why = diff_outcome(M, R, "macro form", "Python twin") or \
                 diff_outcome(F, R, "hy.pyops function", "Python twin")
         if why is None and R is not None and logged and M[0] == "val" == R[0]:
-            if op in COMPARE or op in LOGIC:
+            if op in COMPARE and n == 1:
+                classes.append("unary-compare-operand-" + ("evaluated" if m_trace else "not-evaluated"))
+            elif op in COMPARE or op in LOGIC:
                 if "stmt" not in forms or op in COMPARE:
                     if m_trace != r_trace:
                         why = f"operand trace {m_trace} but Python evaluates {r_trace}"
